@@ -59,6 +59,7 @@ Check c20_messages_are_whole_frames_under_cancellation_and_writes :
     Inv packet parse ver_of is_keepalive version m verify pong c s ->
     Whole packet pong s -> (pend_p s = None -> pend_w s = []) ->
     Forall (tok_whole packet pong) (aconv packet parse ver_of is_keepalive version m verify pong fuel c s rs ws cancels wsched []).
+Check c20_model_state_is_the_struct : state_tied = true.
 Print Assumptions c20_session_any_partition.
 Print Assumptions c20_equals_tcp.
 Print Assumptions c20_non_binary_ignored.
@@ -66,3 +67,4 @@ Print Assumptions c20_closure_disconnects.
 Print Assumptions c20_adaptor_loses_nothing.
 Print Assumptions c20_write_is_one_message.
 Print Assumptions c20_messages_are_whole_frames_under_cancellation_and_writes.
+Print Assumptions c20_model_state_is_the_struct.
